@@ -17,7 +17,7 @@ RULE = ("random histories of 1..12 public queries and mutators (rank, isvalid, i
         "mutator or a user-argument query followed by a query")
 ASSUMPTIONS = ["kernels are abstract in the model (values are tags of what they were computed from); that each kernel's "
                "result does not depend on WHICH topological order is memoised is C03/C04/C05/C08's order-independence",
-               "orders (idxs_seq) are compared as sets; floats with np.array_equal on the same code path"]
+               "orders (idxs_seq) are compared as sets; float results to 2e-6 relative (a memoised order may differ from a fresh object's, which changes the summation order)"]
 
 OPS_RASTER = list(range(0, 22))       # 21: stream_distance(mask, unit='m'), raster only
 OPS_VECTOR = [0, 1, 2, 3, 4, 5, 6, 7, 8, 12, 13, 14, 15, 16, 17, 19, 20, 11]
